@@ -6,7 +6,7 @@
    arithmetic is not a ring homomorphism of Z (operands of // % >> comparisons and/or/not, conditions, shift amounts,
    values stored in integer variables) lie in [0, 2^31); this is implied by "all intermediate values in [0, 2^31)". *)
 From V Require Import Base.Bits Model.VSyntax Model.VSem Model.PySyntax Model.PySem Model.Tv Spec.C02
-  Proofs.C02.Expr Proofs.C02.Stmt Proofs.C02.Block Proofs.C02.Comb Proofs.C02.Refuted Proofs.C02.Main.
+  Proofs.C02.Expr Proofs.C02.Stmt Proofs.C02.Block Proofs.C02.Comb Proofs.C02.Refuted Proofs.C02.Main Proofs.C02.Refusal Proofs.C02.Prefix Proofs.C02.Domain.
 Local Open Scope string_scope.
 Local Open Scope Z_scope.
 
@@ -78,6 +78,69 @@ Proof. exact cmp_rhs_repaired. Qed.
 Theorem C02_repaired_portname : match tgt_PortName with m :: _ => tv_block src_PortName m = true | [] => False end.
 Proof. exact portname_repaired. Qed.
 
+(* ---- session 5 ---------------------------------------------------------------------------------------------------------- *)
+(* ---- the refusal clause: a method body with a construct outside the subset ANYWHERE in it (has_unsup: a PUnsupported /
+   PSUnsupported node of the dumped ast, executed or not) is accepted by the validator for NO emitted module — clock() and
+   propagate() blocks alike (tv_block is the validator of both kinds).  So whatever text the transpiler returns for such a
+   method is reported by the check; only refusing (raising) is a correct answer. *)
+Theorem C02_unsupported_never_validated : forall b m, has_unsup (b_body b) = true -> tv_block b m = false.
+Proof. exact unsupported_never_validated. Qed.
+(* the hypothesis is satisfiable by a block whose unsupported node sits in a branch a concrete in-domain history never executes
+   (Python's semantics is defined on it, yet no module validates); the accepted examples have no such node *)
+Example C02_unsupported_example :
+  has_unsup (b_body src_WithUnsupported) = true /\
+  py_sim g_dom src_WithUnsupported [([("a", 5); ("b", 1)], 2%nat)] ["o"] ["s"] = ([[0; 0]; [5; 0]], true) /\
+  has_unsup (b_body src_LastWriteWins) = false /\ has_unsup (b_body src_MatchFsm) = false /\ has_unsup (b_body src_CombMux) = false.
+Proof. exact (conj with_unsupported_has (conj with_unsupported_runs accepted_have_none)). Qed.
+
+(* ---- histories that leave the domain: for ANY stimulus of input pokes, py_sim g_dom returns Python's trajectory up to the
+   first step that is undefined under the guard (ok tells whether the end was reached); the Verilog trajectory of a validated
+   block starts with exactly these rows: agreement on the longest in-domain prefix of every history. *)
+Theorem C02_block_prefix_sound : forall b m, b_kind b = KClock -> tv_block b m = true ->
+  exists f, elaborate [m] 200 (m_name m) = inr f /\
+    forall ports attrs steps tr ok, obs_ok b f ports attrs -> pokes_inputs b steps ->
+      py_sim g_dom b steps ports attrs = (tr, ok) ->
+      exists vtr vok, vsim f (flat_clk f) steps (ports ++ attrs) = (vtr, vok) /\ firstn (length tr) vtr = tr.
+Proof. exact block_prefix_sound. Qed.
+Theorem C02_comb_block_prefix_sound : forall b m, b_kind b = KPropagate -> tv_block b m = true ->
+  exists f, elaborate [m] 200 (m_name m) = inr f /\
+    forall clkname ports steps tr ok, obs_okc b f ports -> pokes_inputs b steps -> comb_steps steps ->
+      py_sim g_dom b steps ports [] = (tr, ok) ->
+      exists vtr vok, vsim f clkname steps (ports ++ []) = (vtr, vok) /\ firstn (length tr) vtr = tr.
+Proof. exact comb_prefix_sound. Qed.
+(* non-vacuity, on real transpiler outputs whose history LEAVES the domain (ok = false): the hypotheses hold, the Verilog rows
+   start with Python's prefix, and the first row after it differs from Python's — nothing more can be claimed *)
+Example C02_block_prefix_nonvacuous : exists f,
+  elaborate [mod_Wide32] 200 (m_name mod_Wide32) = inr f /\ b_kind src_Wide32 = KClock /\ tv_block src_Wide32 mod_Wide32 = true /\
+  obs_ok src_Wide32 f ["o"] ["s"] /\ pokes_inputs src_Wide32 wide_steps /\
+  py_sim g_dom src_Wide32 wide_steps ["o"] ["s"] = ([[0; 1]; [16666; 50000]], false) /\
+  vsim f (flat_clk f) wide_steps (["o"] ++ ["s"]) = ([[0; 1]; [16666; 50000]; [3696644864; 2500000000]], true).
+Proof. exact wide_prefix_example. Qed.
+Example C02_comb_prefix_nonvacuous : exists f,
+  elaborate [mod_CombWide] 200 (m_name mod_CombWide) = inr f /\ b_kind src_CombWide = KPropagate /\ tv_block src_CombWide mod_CombWide = true /\
+  obs_okc src_CombWide f ["o"] /\ pokes_inputs src_CombWide combwide_steps /\ comb_steps combwide_steps /\
+  py_sim g_dom src_CombWide combwide_steps ["o"] [] = ([[0]; [11]], false) /\
+  py_sim g_all src_CombWide combwide_steps ["o"] [] = ([[0]; [11]; [7]; [4]], true) /\
+  vsim f "" combwide_steps (["o"] ++ []) = ([[0]; [11]; [6]; [4]], true).
+Proof. exact combwide_prefix_example. Qed.
+
+(* ---- the bound 2^31 is tight: C02_block_sound with the guard widened to "non-negative, at most 32 bits" (g_32 = [0, 2^32)) is
+   FALSE.  A Verilog `integer` is 32 bit signed: the state variable s of Wide32 (real transpiler output, accepted by the
+   validator) reaches 2 500 000 000, Python prepares s // 3 = 833333333, the module computes the signed quotient 3696644864. *)
+Theorem C02_domain_31_tight_refuted : ~ block_sound_for g_32.
+Proof. exact domain_31_tight. Qed.
+(* ... whereas block_sound_for g_dom is C02_block_sound; and the witness written out *)
+Example C02_domain_31_sound : block_sound_for g_dom.
+Proof. exact block_sound_for_dom. Qed.
+Example C02_domain_31_witness : exists f,
+  elaborate [mod_Wide32] 200 (m_name mod_Wide32) = inr f /\ tv_block src_Wide32 mod_Wide32 = true /\
+  obs_ok src_Wide32 f ["o"] ["s"] /\ pokes_inputs src_Wide32 wide_steps /\
+  py_sim g_32 src_Wide32 wide_steps ["o"] ["s"] = (wide_py_trace, true) /\
+  py_sim g_all src_Wide32 wide_steps ["o"] ["s"] = (wide_py_trace, true) /\
+  vsim f (flat_clk f) wide_steps (["o"] ++ ["s"]) = (wide_v_trace, true) /\
+  wide_v_trace <> wide_py_trace.
+Proof. exact wide_witness. Qed.
+
 Print Assumptions C02_expr_sound.
 Print Assumptions C02_expr_exact.
 Print Assumptions C02_cond_sound.
@@ -88,3 +151,7 @@ Print Assumptions C02_refuted_narrow.
 Print Assumptions C02_refuted_narrow_shift.
 Print Assumptions C02_repaired_cmp_rhs.
 Print Assumptions C02_repaired_portname.
+Print Assumptions C02_unsupported_never_validated.
+Print Assumptions C02_block_prefix_sound.
+Print Assumptions C02_comb_block_prefix_sound.
+Print Assumptions C02_domain_31_tight_refuted.
